@@ -12,6 +12,7 @@ func vStructField(v interface{}, i int) interface{}       { panic("symbolic only
 func vGhostSet(p interface{}, name string, v []byte)      { panic("symbolic only") }
 func vGhostGet(p interface{}, name string) []byte         { panic("symbolic only") }
 func vSameTerm(a, b []byte) bool                          { panic("symbolic only") }
+func vFieldBytes(p interface{}, i int) []byte             { panic("symbolic only") }
 func vAssume(c bool)                                      { panic("symbolic only") }
 
 func clone(b []byte) []byte {
